@@ -85,6 +85,12 @@ func checkC06(c *Check) {
 	c.Floor("dispatch rows", 20, len(d.Rows))
 	c.Floor("functions between the ingester callback and the dispatcher", 2, lineReachesDispatcher(c))
 	spacingRule(c) // field values reach the patterns as written (internal spacing preserved by the ingester)
+	// ... the processor matches the text it was given (no rewriting of the
+	// line before dispatch: rules of C17), and every record written to the
+	// pipe reaches the callback once, whole (framing loop: rules of C12)
+	nli := importRules(c, "C17", checkC17, "", "line-integrity")
+	nli += importRules(c, "C12", checkC12, "record-as-written: ", "once-verbatim-in-order", "framing-primitive", "reader-outlives-loop", "read-error-ends-delivery")
+	c.Floor("imported line-integrity / record-as-written obligations", 8, nli)
 	nodeNameRule(c)
 	rowOf := map[*ssa.Function][]Row{}
 	for _, r := range d.Rows {
@@ -534,6 +540,54 @@ func lineReachesDispatcher(c *Check) int {
 				c.OK("line-dispatched-once", "a line given to "+fn.Name()+" reaches "+target.Name()+" at most once", p.Pos(fn.Pos()), "one call, not in a loop, not repeated on any path")
 			} else {
 				c.Bad("line-dispatched-once", "a line given to "+fn.Name()+" reaches "+target.Name()+" at most once", p.InstrPos(twice), "the same line can be handed on a second time (retry or loop): its counters move twice and its event or login can be produced twice")
+			}
+			// ... and the error of the next stage is this stage's result (a
+			// failure parked in a channel or variable surfaces only when
+			// another line arrives, or never)
+			for _, s := range sites {
+				val, isVal := s.(ssa.Value)
+				sci, isCI := s.(ssa.CallInstruction)
+				if !isCI {
+					continue
+				}
+				sig := sci.Common().Signature()
+				if !isVal || sig == nil || sig.Results().Len() == 0 || !isErrorType(sig.Results().At(sig.Results().Len()-1).Type()) {
+					if _, isGo := s.(*ssa.Go); isGo {
+						c.Bad("line-error-returned", "error of "+target.Name()+" called in "+fn.Name(), p.InstrPos(s), "the next stage runs in its own goroutine: its error is not the result of this stage")
+					}
+					continue
+				}
+				var ev ssa.Value = val
+				if sig.Results().Len() > 1 {
+					ev = nil
+					if rr := val.Referrers(); rr != nil {
+						for _, u := range *rr {
+							if ex, ok := u.(*ssa.Extract); ok && ex.Index == sig.Results().Len()-1 {
+								ev = ex
+							}
+						}
+					}
+				}
+				okE, whyE := false, "the error result is discarded"
+				if ev != nil {
+					fl := &errFlow{p: p, seen: map[ssa.Value]bool{}}
+					fl.follow(ev, 0)
+					inFn := len(fl.Returned) > 0
+					for _, ri := range fl.Returned {
+						if ri.Parent() != fn {
+							inFn = false
+						}
+					}
+					switch {
+					case len(fl.Sent) > 0:
+						whyE = "the error is sent on a channel instead of being returned: it reaches the worker's result only if and when that channel is read (e.g. when another line arrives)"
+					case !inFn:
+						whyE = "the error is not returned by " + fn.Name()
+					default:
+						okE = true
+					}
+				}
+				c.Cond(okE, "line-error-returned", "error of "+target.Name()+" called in "+fn.Name(), p.InstrPos(s), "returned to the caller", whyE+": a failure while processing a line (an event write error) does not stop the worker, and the daemon keeps running with this pipeline dead")
 			}
 			construct := "every line given to " + fn.Name() + " reaches " + target.Name()
 			if skip == nil {
